@@ -71,3 +71,9 @@ var (
 //@   ensures? [tree-or-error] err == nil ==> nonnil(result)
 //@   loop * invariant? okP(p) && p.tk == old(p.tk) && p.curToken != nil && p.peekToken != nil
 //@   safe
+
+// parse errors are located: every error constructor takes the Meta of the offending token and
+// returns an error that carries exactly that token (type, line, position, file)
+//@ forall-funcs ^[A-Z][A-Za-z]*$ [C01]
+//@   requires? m != nil
+//@   ensures? [error-located] result != nil && result.Token.Type == m.Token.Type && result.Token.Line == m.Token.Line && result.Token.Position == m.Token.Position && result.Token.File == m.Token.File
